@@ -49,6 +49,13 @@ def _paths(text):
     return out
 
 
+def _under(p: str, root: str) -> bool:
+    """root: a directory (the path itself or anything below it) or, ending in '*', a plain path prefix."""
+    if root.endswith("*"):
+        return p.startswith(root[:-1])
+    return p == root or p.startswith(root + "/")
+
+
 def parse_trace(text: str, root: str):
     """All syscall lines -> relevant ops (touching a path under root)."""
     counts = {}
@@ -58,7 +65,7 @@ def parse_trace(text: str, root: str):
         if not m:
             continue
         name = m.group(1)
-        if any(p == root or p.startswith(root + "/") for p in _paths(line)):
+        if any(_under(p, root) for p in _paths(line)):
             # counted among the *relevant* calls only: phase 2 runs strace with -P <every relevant
             # path>, and the injection counter only sees calls that pass the path filter, so calls
             # on unrelated descriptors (pipes of the lscpu subprocess, ...) cannot shift it
@@ -71,7 +78,7 @@ def relevant_paths(ops, root: str):
     out = set()
     for o in ops:
         for p in _paths(o.text):
-            if p == root or p.startswith(root + "/"):
+            if _under(p, root):
                 out.add(p)
     return sorted(out)
 
